@@ -152,25 +152,28 @@ func (ei *resourceInformer) createSharedInformer() error {
 	return nil
 }
 
-// Snapshot returns all cached objects for this informer
+// getCachedObjects returns all cached objects for this informer.
 func (ei *resourceInformer) getCachedObjects() []kemtypes.ObjectAndFilterResult {
-	// Copy the cache and reset eventBuf in one critical section: an event buffered
-	// between the copy and the reset is not in the copy and must not be dropped.
-	ei.eventBufLock.Lock()
-	defer ei.eventBufLock.Unlock()
-
 	ei.cacheLock.RLock()
+	defer ei.cacheLock.RUnlock()
+
 	res := make([]kemtypes.ObjectAndFilterResult, 0)
 	for _, obj := range ei.cachedObjects {
 		res = append(res, *obj)
 	}
-	ei.cacheLock.RUnlock()
+	return res
+}
 
-	// Reset eventBuf if needed.
+// dropSavedEvents drops events saved while the event callback is not enabled.
+// It is called before objects are read for the Synchronization: dropped events are reflected
+// in these objects. Other readers of cached objects should not drop saved events: an event saved after
+// the Synchronization is not known to the hook.
+func (ei *resourceInformer) dropSavedEvents() {
+	ei.eventBufLock.Lock()
+	defer ei.eventBufLock.Unlock()
 	if !ei.eventCbEnabled {
 		ei.eventBuf = nil
 	}
-	return res
 }
 
 // resetCachedObjects drops objects loaded by loadExistedObjects.
